@@ -71,6 +71,10 @@ impl Connector for LoadBalanceConnector {
         self.name.as_str()
     }
 
+    fn members(&self) -> &[String] {
+        &self.connectors
+    }
+
     async fn init(&mut self) -> Result<(), Error> {
         if let Algorithm::HashBy(str) = &self.algorithm {
             let value = parse(str).context("unable to compile hash script")?;
@@ -95,6 +99,22 @@ impl Connector for LoadBalanceConnector {
                 "connector not defined: {}",
                 n
             );
+        }
+        // a balancer that is, directly or through other balancers, a member of itself would forward to itself forever
+        let mut todo: Vec<&String> = self.connectors.iter().collect();
+        let mut seen: Vec<&String> = Vec::new();
+        while let Some(n) = todo.pop() {
+            ensure!(
+                *n != self.name,
+                "connector {} is a member of itself",
+                self.name
+            );
+            if !seen.contains(&n) {
+                seen.push(n);
+                if let Some(c) = state.connectors.get(n) {
+                    todo.extend(c.members());
+                }
+            }
         }
         Ok(())
     }
